@@ -64,6 +64,8 @@ M = [
   'generatedSamples[AIToolbox::sampleProbability(S, b, *rand_)] += 1;', 'generatedSamples[AIToolbox::sampleProbability(beliefSize_, b, *rand_)] += 1;'),
  ('X5 POMCP makeSampledBelief: particle count passed as the dimension of the belief', POMCP,
   'belief.push_back(sampleProbability(S, b, rand_));', 'belief.push_back(sampleProbability(beliefSize_, b, rand_));'),
+ ('X8 rollout, variable action space: the action distribution is built once, for the first state', ROLL,
+  None, None),
  ('X7 rPOMCP promotion: the particle map is cleared before it is copied into the sampling belief', GRAPH,
   None, None),
 ]
@@ -78,6 +80,10 @@ def special(name, s):
         a = '                if (m.isTerminal(s))\n                    return totalRew;\n'
         i = s.rfind(a)
         return (s[:i] + s[i + len(a):], 1) if i >= 0 else (s, 0)
+    if name.startswith('X8'):
+        a = ('            for (unsigned depth = 0; depth < maxDepth; ++depth ) {\n                std::uniform_int_distribution<size_t> dist(0, m.getA(s)-1);\n')
+        b = ('            std::uniform_int_distribution<size_t> dist(0, m.getA(s)-1);\n            for (unsigned depth = 0; depth < maxDepth; ++depth ) {\n')
+        return s.replace(a, b), s.count(a)
     if name.startswith('X7'):
         a = '        TrackBelief<UseEntropy>().swap(this->trackBelief_); // Clear belief memory\n'
         i = s.find(a)
